@@ -36,7 +36,7 @@ def fd_gradient(L, x0_used, free_names, free_x0, h=1e-6):
     return g
 
 
-def grad_unit(kind, sel, tp, n, weighted=False, spread_form="scalar", entry="sensitivity", ts_sel=None, full_output=False, time_kind="sym", y_kind="sym", pre_iv=False):
+def grad_unit(kind, sel, tp, n, weighted=False, spread_form="scalar", entry="sensitivity", ts_sel=None, full_output=False, time_kind="sym", y_kind="sym", pre_iv=False, x0_kind="sym"):
     """pre_iv: the object has target_state and an initial-value evaluation (costIV at other parameter values and other
     initial values) comes first; that call moves the object's initial state, and the fixed-initial-value gradient that
     follows must be the derivative of the cost the object computes NOW (from the moved state)"""
@@ -47,10 +47,10 @@ def grad_unit(kind, sel, tp, n, weighted=False, spread_form="scalar", entry="sen
         free_x0 = (list(ts_sel) if ts_sel is not None else list(STATES)) if iv else []
         if c.mode == "sym":
             with stubs.integrator_stubs(c, eig="fixed") as book, stubs.patched(*loss_patches(c)):
-                L = build_loss(c, kind, sel, tp, ts_sel, n, weighted, spread_form, time_kind, y_kind)
+                L = build_loss(c, kind, sel, tp, ts_sel, n, weighted, spread_form, time_kind, y_kind, x0_kind)
                 x0_used = list(L.x0)
                 if iv:
-                    L.x0_free = [c.real("iv_%s" % s, lo=1, hi=10) for s in free_x0]
+                    L.x0_free = [c.real("iv_%s" % s, lo=1, hi=10) for s in free_x0] if x0_kind == "sym" else [3.25 + 1.5 * k_ for k_ in range(len(free_x0))]
                     for s, v in zip(free_x0, L.x0_free):
                         x0_used[STATES.index(s)] = v
                     arg = arr(c, list(L.theta) + L.x0_free)
@@ -93,10 +93,10 @@ def grad_unit(kind, sel, tp, n, weighted=False, spread_form="scalar", entry="sen
                         acc = acc + expr.ev(expr.d(e, "yh"), env) * rows[i][NS + NS * NP + l * NS + s]
                 ref.append(acc)
         else:
-            L = build_loss(c, kind, sel, tp, ts_sel, n, weighted, spread_form, time_kind, y_kind)
+            L = build_loss(c, kind, sel, tp, ts_sel, n, weighted, spread_form, time_kind, y_kind, x0_kind)
             x0_used = [float(v) for v in L.x0]
             if iv:
-                L.x0_free = [c.real("iv_%s" % s, lo=1, hi=10) for s in free_x0]
+                L.x0_free = [c.real("iv_%s" % s, lo=1, hi=10) for s in free_x0] if x0_kind == "sym" else [3.25 + 1.5 * k_ for k_ in range(len(free_x0))]
                 for s, v in zip(free_x0, L.x0_free):
                     x0_used[STATES.index(s)] = v
                 out = L.obj.sensitivityIV(np.array(list(L.theta) + L.x0_free), full_output=full_output)
@@ -123,7 +123,7 @@ def grad_unit(kind, sel, tp, n, weighted=False, spread_form="scalar", entry="sen
                 c.prove(near(g[k_], ref[k_], c, tol=2e-4), "gradient[%d] == d cost / d %s (free variables in the order supplied)" % (k_, nm))
     return Unit("C07.%s[%s,states=%s,target=%s,n=%d,w=%s,spread=%s,ts=%s,full=%s%s]" % (
         entry, kind, "+".join(sel), "all" if tp is None else "+".join(tp), n, weighted, spread_form, ts_sel, full_output,
-        ("" if time_kind == "sym" else ",times=" + time_kind) + ("" if y_kind == "sym" else ",y=" + y_kind) + (",after_costIV" if pre_iv else "")), h,
+        ("" if time_kind == "sym" else ",times=" + time_kind) + ("" if y_kind == "sym" else ",y=" + y_kind) + (",after_costIV" if pre_iv else "") + ("" if x0_kind == "sym" else ",x0=" + x0_kind)), h,
         bounds={"model": "S,J,R / beta,gamma", "times": n, "time_inputs": "symbolic reals" if time_kind == "sym" else "concrete %s 1..n with t0=0.5" % time_kind, "observed_states": list(sel), "target_param": tp, "target_state": ts_sel,
                 "weights": "symbolic" if weighted else "unit", "spread": spread_form},
         program={"loss": kind, "sel": list(sel), "tp": tp, "ts": ts_sel}, tol=2e-4, max_paths=400)
@@ -181,6 +181,9 @@ class C07(Check):
         us.append(grad_unit("Square", ("R", "J"), None, 3, weighted="per_state"))
         us.append(grad_unit("Normal", ("J", "S"), ("gamma", "beta"), 3, weighted="per_state", spread_form="per_state"))
         us.append(grad_unit("Square", ("S", "R"), None, 3, weighted="scalar", entry="sensitivityIV", ts_sel=("J",)))
+        # typed initial values (Python ints / int64 array) with inferred initial values
+        us.append(grad_unit("Square", ("J",), None, 2, entry="sensitivityIV", ts_sel=("J",), x0_kind="int_list"))
+        us.append(grad_unit("Square", ("R", "J"), ("gamma",), 2, entry="sensitivityIV", ts_sel=("S", "R"), x0_kind="int64"))
         # call histories on one object: an initial-value evaluation first (it moves the object's initial state)
         us.append(grad_unit("Square", ("J", "R"), ("beta", "gamma"), 2, entry="gradient", ts_sel=("J",), pre_iv=True))
         us.append(grad_unit("Normal", ("S",), ("gamma",), 2, entry="sensitivity", ts_sel=("R", "S"), pre_iv=True))
